@@ -18,7 +18,7 @@ T = {
          'Every packet sequence over a small alphabet, under every threshold/cipher setting, is pushed through the real writer and the real stream reader under every read segmentation within the stated bounds; an independent deframer/framer decides. Bounded-exhaustive, not sampled.',
          'Trusted: vf/refproto (framing, hand-built CFB8) and stdlib zlib; bounds on sequence length and stream length stated in the evidence.', '3/C01'),
  'C02': ('exploration',
-         'exhaustive enumeration of value domains (all 8/16-bit values, structured bit-pattern alphabets for wider types, all strict prefixes) against an independent codec; construction, failure and re-entrancy histories; preemption-bounded exhaustive exploration of all schedules of pairs of codec calls on two threads (line-level and instruction-level scheduling points, cold forks for first use)',
+         'exhaustive enumeration of value domains (all 8/16-bit values, structured bit-pattern alphabets for wider types, all strict prefixes) against an independent codec; construction, failure, malformed-input and re-entrancy histories; preemption-bounded exhaustive exploration of all schedules of pairs of codec calls on two threads (line-level and instruction-level scheduling points, cold forks for first use)',
          'All values of small domains and a structured boundary alphabet of wide domains are encoded and decoded by the real types and compared byte-for-byte with an independent codec; every strict prefix must raise.',
          'Trusted: vf/refproto/codec.py (no struct, hand IEEE-754/UTF-8). 32/64-bit domains are covered by structured alphabets, not 2^32 cases.', '3/C02'),
  'C03': ('exploration',
@@ -34,7 +34,7 @@ T = {
          'Every registered class at every supported version is written and read back with one-field-at-a-time boundary variation and all structural variants; user-defined definitions are enumerated as programs.',
          'Oracle is round-trip equality plus exact consumption and id agreement (byte-exactness is C02/C07).', '3/C05'),
  'C06': ('exploration',
-         'complete enumeration of the finite configuration space (250 versions x 4 states x 2 directions), walked in several orders and through long-lived / re-assigned contexts; all schedules within a preemption bound of two threads building tables (warm) and reactors (cold forks)',
+         'complete enumeration of the finite configuration space (250 versions x 4 states x 2 directions), walked in several orders and through long-lived / re-assigned contexts (with long-lived packet objects bound to the re-assigned one); all schedules within a preemption bound of two threads building tables (warm) and reactors (cold forks)',
          'The space is finite and enumerated completely; nine collisions at development snapshots are recorded as known findings.',
          'Trusted: nothing beyond Python set/dict semantics.', '3/C06'),
  'C07': ('exploration',
@@ -42,7 +42,7 @@ T = {
          'pyCraft bytes vs reference bytes, reference bytes decoded by pyCraft, and reactor id lookup, for every listed release.',
          'Trusted: vf/refproto/releases.py, transcribed by hand; entries that could not be established with confidence are left out and listed as not judged.', '3/C07'),
  'C08': ('model_checking',
-         'explicit-state BFS over run-time record extensions and re-initialisations on the real module, plus complete enumeration of all pairs/triples of known versions, against an independent recomputation (append, insert, re-list, replace, swap, out-of-order numbers; in place and by rebinding the list) with long-lived contexts observed across rebuilds',
+         'explicit-state BFS over run-time record extensions and re-initialisations on the real module, plus complete enumeration of all pairs/triples of known versions, against an independent recomputation (append, insert, re-list, replace, swap, out-of-order numbers; in place and by rebinding the list) with long-lived contexts observed across rebuilds; all schedules within a preemption bound of pairs of comparison calls made by two threads',
          'All pairs (and triples) of known protocol numbers for the order laws; BFS over histories of record extension + initglobals with state deduplication for the derived tables.',
          'Trusted: the reference recomputation (rank = index of first occurrence). Module state is snapshotted and restored around every path.', '3/C08'),
  'C09': ('model_checking',
